@@ -26,6 +26,10 @@ Readings adopted where the statement leaves room (choose the one under which a c
   producer/exchange kind, a header class swapped for one with the same ARROW_SCHEMA, and the declared protocol_version
   (documented as "not part of the protocol_hash payload").  These pairs are run and tallied as notes, never alarms.
 * "identical across processes": same source, fresh interpreter, different PYTHONHASHSEED.
+* a header class whose ARROW_SCHEMA has no field (marker class, or Transient fields only) IS a header: the server writes
+  a header stream and the client reads it, so `Stream[S]` vs `Stream[S, Marker]` is a wire-relevant difference
+  (has_header must be True, header_schema the serialized empty schema, the hashes must differ).  The model carries the
+  header as `option bytes`, so "absent" and "present with an empty schema" are different values.
 """
 from __future__ import annotations
 
@@ -53,7 +57,7 @@ from vgi_rpc.rpc import (  # noqa: F401
     Stream,
     StreamState,
 )
-from vgi_rpc.utils import ArrowSerializableDataclass, ArrowType  # noqa: F401
+from vgi_rpc.utils import ArrowSerializableDataclass, ArrowType, Transient  # noqa: F401
 
 META = {
     "id": "C39",
@@ -132,6 +136,27 @@ class C39H3(ArrowSerializableDataclass):  # C39H1 with the field nullable
 
 
 @dataclass(frozen=True)
+class C39H0(ArrowSerializableDataclass):  # marker header: no Arrow field at all (ARROW_SCHEMA is empty, hence falsy)
+    pass
+
+
+@dataclass(frozen=True)
+class C39H0t(ArrowSerializableDataclass):  # only a Transient field: same empty ARROW_SCHEMA
+    cache: Annotated[int, Transient()] = 0
+
+
+@dataclass(frozen=True)
+class C39D0(ArrowSerializableDataclass):  # zero-field dataclass as parameter / result / element type
+    pass
+
+
+@dataclass
+class C39Prod0(ProducerState):  # producer state without any field
+    def produce(self, out: OutputCollector, ctx: CallContext) -> None:
+        out.finish()
+
+
+@dataclass(frozen=True)
 class C39D1(ArrowSerializableDataclass):
     x: int
 
@@ -156,11 +181,16 @@ TYPES = [
     "int", "float", "str", "bytes", "bool", "list[int]", "list[str]", "dict[str, int]", "frozenset[float]",
     "int | None", "str | None", "float | None", "list[int] | None", "bytes | None",
     "Annotated[int, ArrowType(pa.int32())]", "Annotated[int, ArrowType(pa.uint8())]", "Annotated[str, ArrowType(pa.large_utf8())]",
-    "list[list[int]]", "dict[str, list[float]]", "C39D1", "C39E1",
+    "list[list[int]]", "dict[str, list[float]]", "C39D1", "C39E1", "C39D0", "list[C39D0]",
 ]
-SAME_ARROW = {"C39D1": "C39D2", "C39E1": "C39E2", "bytes": "C39D1", "list[int]": "frozenset[int]"}
-STATES = ["C39Prod", "C39Exch", "C39Raw"]
-HEADERS = [None, "C39H1", "C39H2"]
+SAME_ARROW = {"C39D1": "C39D2", "C39E1": "C39E2", "bytes": "C39D1", "list[int]": "frozenset[int]", "C39D0": "C39D1"}
+BINARY_LIKE = {"bytes", "C39D0", "C39D1", "C39D2"}  # all of them are a `binary` parameter field
+NO_NULL_FLIP = ("C39D0", "C39D1", "C39E1", "list[C39D0]")
+STATES = ["C39Prod", "C39Exch", "C39Raw", "C39Prod0"]
+STATE_KIND = {"C39Prod": "producer", "C39Prod0": "producer", "C39Prod2": "producer", "C39Exch": "exchange", "C39Raw": "raw"}
+EMPTY_HEADERS = ["C39H0", "C39H0t"]  # header classes whose ARROW_SCHEMA has no field: still a header on the wire
+HEADERS = [None, "C39H1", "C39H2", "C39H0", "C39H0t"]
+RETS = [None, "int", "str", "float | None", "list[int]", "C39D1", "bool", "C39D0", "list[C39D0]"]
 NAMES = ["a", "b", "c", "x", "y", "n", "key", "value", "limit", "data", "flag", "Z", "a1", "a_", "ab", "été", "名"]
 MNAMES = ["add", "get", "put", "list_all", "scan", "a", "b", "B", "ab", "a_b", "a1", "zeta", "Alpha", "run", "close", "é", "naïve", "数"]
 DOCS = [None, "Do it.", "Do it.\n\nArgs:\n    a: the first.\n    b: the second.\n", "x" * 40]
@@ -179,7 +209,7 @@ def gen_method(rng: Any, used: set[str]) -> dict[str, Any]:
     params = [{"name": p, "type": rng.choice(TYPES), "default": rng.choice([None, None, rng.choice(DEFAULTS)])} for p in pn]
     m: dict[str, Any] = {"name": name, "kind": kind, "params": params, "doc": rng.choice(DOCS)}
     if kind == "unary":
-        m["ret"] = rng.choice([None, "int", "str", "float | None", "list[int]", "C39D1", "bool"])
+        m["ret"] = rng.choice(RETS)
         m["state"], m["header"] = "C39Prod", None
     else:
         m["ret"] = None
@@ -269,24 +299,32 @@ def edits_of(rng: Any, base: dict[str, Any]) -> list[tuple[str, bool | None, dic
         ed("docstring-args", False, at(lambda mm: mm.update(doc="T.\n\nArgs:\n    " + (mm["params"][0]["name"] if mm["params"] else "q") + ": described.\n")))
         if m["kind"] == "unary":
             ed("kind-unary-to-stream", True, at(lambda mm: mm.update(kind="stream", ret=None, state=rng.choice(STATES), header=None)))
-            others = [r for r in [None, "int", "str", "float | None", "list[int]", "bool", "bytes"] if r != m["ret"]]
+            others = [r for r in [None, "int", "str", "float | None", "list[int]", "bool", "bytes", "list[C39D0]"]
+                      if r != m["ret"] and not (r in BINARY_LIKE and m["ret"] in BINARY_LIKE)]
             new_ret = rng.choice(others)
             ed("retype-result" if (m["ret"] is not None and new_ret is not None) else "has-return-toggle", True, at(lambda mm, r=new_ret: mm.update(ret=r)))
-            if m["ret"] is not None and m["ret"] not in ("C39D1",):
+            if m["ret"] is not None and m["ret"] not in NO_NULL_FLIP:
                 ed("nullability-flip-result", True, at(lambda mm: mm.update(ret=_nullable(mm["ret"]))))
         else:
             ed("kind-stream-to-unary", True, at(lambda mm: mm.update(kind="unary", ret=rng.choice([None, "int"]), header=None)))
             if m["header"] is None:
                 ed("header-add", True, at(lambda mm: mm.update(header=rng.choice(["C39H1", "C39H2"]))))
+                # a header whose schema has no field is still a header: the server writes a header stream, the client reads it
+                ed("header-add-empty", True, at(lambda mm: mm.update(header=rng.choice(EMPTY_HEADERS))))
+            elif m["header"] in EMPTY_HEADERS:
+                ed("header-remove-empty", True, at(lambda mm: mm.update(header=None)))
+                ed("header-retype-from-empty", True, at(lambda mm: mm.update(header=rng.choice(["C39H1", "C39H2", "C39H3"]))))
+                ed("header-class-same-schema", None, at(lambda mm: mm.update(header="C39H0t" if mm["header"] == "C39H0" else "C39H0")))
             else:
                 ed("header-remove", True, at(lambda mm: mm.update(header=None)))
                 ed("header-retype", True, at(lambda mm: mm.update(header="C39H2" if mm["header"] != "C39H2" else "C39H1")))
+                ed("header-retype-to-empty", True, at(lambda mm: mm.update(header=rng.choice(EMPTY_HEADERS))))
                 if m["header"] == "C39H1":
                     ed("header-nullability-flip", True, at(lambda mm: mm.update(header="C39H3")))
                     ed("header-class-same-schema", None, at(lambda mm: mm.update(header="C39H1b")))
-            ed("state-class-kind", True, at(lambda mm: mm.update(state=rng.choice([x for x in STATES if x != mm["state"]]))))
-            if m["state"] == "C39Prod":
-                ed("state-class-same-kind", None, at(lambda mm: mm.update(state="C39Prod2")))
+            ed("state-class-kind", True, at(lambda mm: mm.update(state=rng.choice([x for x in STATES if STATE_KIND[x] != STATE_KIND[mm["state"]]]))))
+            if STATE_KIND[m["state"]] == "producer":
+                ed("state-class-same-kind", None, at(lambda mm: mm.update(state=rng.choice([x for x in ("C39Prod", "C39Prod0", "C39Prod2") if x != mm["state"]]))))
         unused = [n for n in NAMES if n not in {p["name"] for p in m["params"]}]
         ed("add-param", True, at(lambda mm: mm["params"].insert(rng.randrange(len(mm["params"]) + 1), {"name": rng.choice(unused), "type": rng.choice(TYPES), "default": None})))
         if len(m["params"]) >= 2:
@@ -297,10 +335,10 @@ def edits_of(rng: Any, base: dict[str, Any]) -> list[tuple[str, bool | None, dic
             ed("remove-param", True, lambda s, i=i, j=j: s["methods"][i]["params"].pop(j) and None)
             ed("rename-param", True, atp(lambda pp: pp.update(name=rng.choice(unused))))
             ed("default-edit", False, atp(lambda pp: pp.update(default=rng.choice([d for d in DEFAULTS + [None] if d != pp["default"]]))))
-            ed("nullability-flip-param", True, atp(lambda pp: pp.update(type=_nullable(pp["type"])) if pp["type"] not in ("C39D1", "C39E1") else False))
+            ed("nullability-flip-param", True, atp(lambda pp: pp.update(type=_nullable(pp["type"])) if pp["type"] not in NO_NULL_FLIP else False))
             base_t = p["type"][: -len(" | None")] if p["type"].endswith(" | None") else p["type"]
             cands = [t for t in TYPES if not t.endswith(" | None") and t != base_t and SAME_ARROW.get(t) != base_t and SAME_ARROW.get(base_t) != t
-                     and {t, base_t} != {"bytes", "C39D1"}]
+                     and not (t in BINARY_LIKE and base_t in BINARY_LIKE)]
             new_t = rng.choice(cands) + (" | None" if p["type"].endswith(" | None") else "")
             ed("retype-param", True, atp(lambda pp, t=new_t: pp.update(type=t)))
             if p["type"] in SAME_ARROW:
@@ -545,8 +583,22 @@ def run(ctx: Any) -> None:
     # make sure the extremes are present: no method, six methods, one stream with header, one unary
     bases[0] = gen_service(rng, 0, nmethods=0)
     bases[1] = gen_service(rng, 1, nmethods=6)
-    ctx.rule = ("base services: 0..6 generated methods (unary/stream x producer/exchange/raw state x header none/H1/H2, 0..3 params over "
-                f"{len(TYPES)} annotations incl. optional/Annotated/dataclass/enum, defaults, docstrings, declared version or none); "
+    # empty schemas in every position the describe row carries: no parameter, no result, header classes without any
+    # Arrow field (marker / Transient-only), zero-field dataclasses as parameter, result and list element, field-less state
+    bases[2] = {
+        "pname": "Empties", "version": "1.2.3", "server_id": "srv2",
+        "methods": [
+            {"name": "marked", "kind": "stream", "params": [], "ret": None, "state": "C39Prod0", "header": "C39H0", "doc": None},
+            {"name": "cached", "kind": "stream", "params": [{"name": "a", "type": "C39D0", "default": None}], "ret": None, "state": "C39Exch", "header": "C39H0t", "doc": "Do it."},
+            {"name": "plain", "kind": "stream", "params": [], "ret": None, "state": "C39Prod", "header": None, "doc": None},
+            {"name": "headed", "kind": "stream", "params": [], "ret": None, "state": "C39Raw", "header": "C39H1", "doc": None},
+            {"name": "nothing", "kind": "unary", "params": [], "ret": None, "state": "C39Prod", "header": None, "doc": None},
+            {"name": "unit", "kind": "unary", "params": [{"name": "x", "type": "C39D0", "default": None}, {"name": "y", "type": "list[C39D0]", "default": None}],
+             "ret": "C39D0", "state": "C39Prod", "header": None, "doc": None},
+        ],
+    }
+    ctx.rule = ("base services: 0..6 generated methods (unary/stream x producer/exchange/raw state x header none / one field / two fields / no field (marker) / Transient-only, field-less state, 0..3 params over "
+                f"{len(TYPES)} annotations incl. optional/Annotated/dataclass/zero-field dataclass/enum, defaults, docstrings, declared version or none); "
                 "cases = (base, single-point edit) pairs; distinct by rendered sources; non-trivial = the base has at least one method")
 
     obs_cache: dict[str, dict[str, Any]] = {}
@@ -654,7 +706,7 @@ def run(ctx: Any) -> None:
             elif colname == "is_exchange":
                 new[i][colname] = {None: True, True: False, False: None}[v]
             elif colname == "header_schema_ipc":
-                new[i][colname] = None if v is not None else C39H1.ARROW_SCHEMA.serialize().to_pybytes()
+                new[i][colname] = None if v is not None else rng.choice([C39H1, C39H0]).ARROW_SCHEMA.serialize().to_pybytes()
             else:
                 other = pa.schema([pa.field("q", pa.int8())]).serialize().to_pybytes()
                 new[i][colname] = other if v != other else pa.schema([]).serialize().to_pybytes()
